@@ -244,8 +244,28 @@ def extract(repo=None):
 
     res = {'expr_table': expr_table, 'base_ok': base_ok, 'f_attrs': f_attrs, 'unknown_reads': unknown, 'problems': problems}
     res['modname'] = extract_modname(fns)
+    res['objsem'] = extract_objsem(classes)
     res['probe'] = probe(res)
     return res
+
+
+def extract_objsem(classes):
+    """how VForm.hash memoises (ast): {'recompute': hash is recomputed until finalize(), 'refuse_final': declarations refused
+    once finalized}"""
+    out = {'recompute': False, 'refuse_final': False, 'hash_test': None}
+    vfc = classes.get('VForm')
+    if vfc is None:
+        return out
+    h = _find_method(vfc, 'hash')
+    if h is not None:
+        for n in ast.walk(h):
+            if isinstance(n, ast.If):
+                out['hash_test'] = _src(n.test)
+                out['recompute'] = '__is_finalized' in out['hash_test']
+                break
+    sv = _find_method(vfc, 'set_var')
+    out['refuse_final'] = sv is not None and '__is_finalized' in _src(sv)
+    return out
 
 
 CRYPTO_BITS = {'md5': 128, 'sha1': 160, 'sha224': 224, 'sha256': 256, 'sha384': 384, 'sha512': 512, 'sha3_224': 224, 'sha3_256': 256,
